@@ -648,6 +648,7 @@ class C20(object):
         missing = [n for n in self.names if n not in GEN]
         if missing:
             raise runner.HarnessError("no argument generator for exported kernels: %s" % missing)
+        self.threadsafe = set(kernels.threadsafe_kernels())
         mod = sys.modules["ImageD11._cImageD11"]
         if mod.NPROPERTY != NPROPERTY or mod.NPROPERTY2D != NPROPERTY2D:
             raise runner.HarnessError("NPROPERTY changed: %d %d" % (mod.NPROPERTY, mod.NPROPERTY2D))
@@ -658,8 +659,17 @@ class C20(object):
         g = np.random.default_rng(rnd.getrandbits(48))
         vals, roles, promise = GEN[name](rnd, g, ctx.tier)
         cfg = enginea.draw_cfg(rnd, max_team=32)
-        return {"entry": name, "vals": vals, "roles": roles, "promise": promise, "cfg": cfg,
+        desc = {"entry": name, "vals": vals, "roles": roles, "promise": promise, "cfg": cfg,
                 "gstyle": rnd.choice([0, 0, 1])}
+        if name in self.threadsafe and rnd.random() < 0.35:
+            # the pyf declares this kernel threadsafe (GIL released): several caller threads, each with its own
+            # arguments, run it at the same time
+            others = []
+            for _ in range(rnd.choice([1, 1, 2, 3])):
+                v2, r2, p2 = GEN[name](rnd, g, ctx.tier)
+                others.append({"vals": v2, "roles": r2, "promise": p2})
+            desc["concurrent"] = others
+        return desc
 
     def describe(self, desc):
         d = {"entry": desc["entry"], "cfg": desc["cfg"], "roles": desc["roles"]}
@@ -718,13 +728,65 @@ class C20(object):
                                           "content of output/work buffers, stack and heap (first differing byte %d of %d): "
                                           "not fully written, or computed from uninitialised memory" % (an, k, b1.size)}
                         break
+        nconc = 0
+        if viol is None and desc.get("concurrent"):
+            viol, nconc = self.exec_concurrent(desc, ctx, res[0])
         st = res[0][2]
         meas = enginea.run_measures(st, cfg)
         meas["kernel"] = {name: 1}
+        meas["concurrent_caller_runs"] = 1 if nconc else 0
+        meas["concurrent_callers"] = nconc
         dig = enginea.sha(st["digest"], res[0][0], *[res[0][1][k] for k in sorted(res[0][1])])
         wd = enginea.sha(name, repr(desc["vals"]))
         return {"digest": dig, "sig": "%s/%s" % (wd, sorted(st["team_hist"].items())),
                 "nontrivial": st["steps"] > 0, "viol": viol, "measures": meas}
+
+    def exec_concurrent(self, desc, ctx, solo0):
+        """each caller's result must equal the result of the same call made alone"""
+        sim = ctx.sim
+        name, cfg = desc["entry"], desc["cfg"]
+        parts = [{"vals": desc["vals"], "roles": desc["roles"], "promise": desc["promise"]}] + desc["concurrent"]
+        # a caller thread's own parallel regions are nested and therefore serialised: compare with a solo call on a
+        # team of one (some kernels, e.g. frelon_lines, legitimately depend on how rows are chunked over threads)
+        cfg = dict(cfg, team=1, deliver=1)
+        solos = []
+        for p in parts:
+            ret, arrays, st = kernels.run_kernel(sim, name, p["vals"], p["roles"], cfg, gstyle=desc["gstyle"],
+                                                 step_cap=30000000, track_conflicts=0)
+            v = enginea.viol_from_stats(st, name, kernels.region_names(name))
+            if v is not None:
+                return v, len(parts)
+            d = dict(desc)
+            d["promise"] = p["promise"]
+            solos.append((ret, self._promised(d, arrays, ret)))
+        outs, st = kernels.run_concurrent(sim, [(name, p["vals"], p["roles"]) for p in parts], cfg,
+                                          gstyle=desc["gstyle"], step_cap=60000000, pct_est=3000,
+                                          replay=desc.get("replay_concurrent"))
+        rn = {}
+        for k in range(len(parts)):
+            for i, a in enumerate(K[name]["args"]):
+                rn[100 * (k + 1) + i + 1] = "caller%d.%s" % (k, a[0])
+        v = enginea.viol_from_stats(st, name, rn)
+        if v is not None:
+            v["key"] = name + ":concurrent:" + v["class"]
+            return v, len(parts)
+        for k, p in enumerate(parts):
+            ret, arrays = outs[k]
+            d = dict(desc)
+            d["promise"] = p["promise"]
+            prom = self._promised(d, arrays, ret)
+            sret, sprom = solos[k]
+            same = (ret == sret) or (isinstance(ret, float) and isinstance(sret, float) and math.isnan(ret) and math.isnan(sret))
+            bad = None if same else "return value"
+            for an in sprom:
+                if bad is None and prom[an].view(np.uint8).tobytes() != sprom[an].view(np.uint8).tobytes():
+                    bad = "output '%s'" % an
+            if bad:
+                return {"class": "not-reentrant", "key": name + ":not-reentrant",
+                        "detail": "%d caller threads ran %s at the same time, each on its own arguments; caller %d got a "
+                                  "different %s than when it makes the same call alone (state shared between calls)"
+                                  % (len(parts), name, k, bad)}, len(parts)
+        return None, len(parts)
 
     def extra_evidence(self, results, ctx):
         return {"kernels_in_pyf": len(self.names)}
